@@ -1161,6 +1161,45 @@ fn main() {
             judge_openin_name(i, &name, &files, acc);
         });
     }
+    // F2e: \\input issued while tokens are pending in the issuing source, and a file that expands a long macro
+    {
+        let long = format!("\\def\\L{{{}}}\\L", "a".repeat(40));
+        let leaves: Vec<String> = vec![format!("{long}\n"), long.clone(), "k\n".to_string(), format!("x{long} y\nz\n"), format!("\\def\\L{{{}}}\\L\n", "b".repeat(33))];
+        let mains = [
+            "\\def\\m{\\input a xyz}\\m w",
+            "\\input a\\relax rest",
+            "\\input a\\par rest",
+            "\\def\\m{\\input a }\\m w",
+            "\\def\\m{x\\input a\\relax y}\\m z",
+            "\\def\\m{\\input a\\relax}\\def\\n{p\\m q}\\n r",
+            "\\input a\nz",
+            "\\def\\m{\\input a xyz}\\m w\n\\m v",
+        ];
+        let nl = leaves.len() as u64;
+        let l = &leaves;
+        ctx.family("input-pending", &format!("\\input issued from a macro body with tokens after the name, the name ended by \\relax / \\par / a space in the body, nested macro bodies, the same macro twice ({} mains) x a file that defines and expands a macro of 40 (33) tokens, with / without final newline, mid-line, or a short file ({} leaves); also one level deeper", mains.len(), leaves.len()), mains.len() as u64 * nl * 2, |i, acc| {
+            let d = vcore::digits(i, &[mains.len() as u64, nl, 2]);
+            let mut files = BTreeMap::new();
+            let main = if d[2] == 0 {
+                files.insert("a".to_string(), l[d[1] as usize].clone());
+                mains[d[0] as usize].to_string()
+            } else {
+                // one level deeper: main inputs b, whose text is the menu line
+                files.insert("a".to_string(), l[d[1] as usize].clone());
+                files.insert("b".to_string(), format!("{}\n", mains[d[0] as usize]));
+                "\\def\\o{\\input b\\relax t}\\o u".to_string()
+            };
+            let case = TreeCase { main, files };
+            let want = readtoks::run_input(&case.files, &case.main, &model_cfg(), EndInput::TexGlobalFlag);
+            if want.input_from_macro_body_with_rest {
+                acc.count("input_issued_from_macro_body_with_tokens_pending_after_it");
+            }
+            if want.big_expansion_in_input_file {
+                acc.count("input_file_expands_more_than_32_tokens_at_once");
+            }
+            judge_tree(i, &case, acc, true);
+        });
+    }
     // F3: chains
     {
         let depth = ctx.pick(3usize, 5usize);
@@ -1289,6 +1328,8 @@ fn main() {
     ctx.require("two_streams_open", "two streams are open at the same time");
     ctx.require("read_inside_group_under_positive_globaldefs", "a \\read is executed inside a group while \\globaldefs > 0");
     ctx.require("input_file_ends_with_spaces_only_line_without_newline", "an input file ends with an unterminated line of spaces only");
+    ctx.require("input_issued_from_macro_body_with_tokens_pending_after_it", "\\input is executed while a macro body still has tokens after the file name");
+    ctx.require("input_file_expands_more_than_32_tokens_at_once", "an input file expands a macro body of more than 32 tokens");
     ctx.require("file_name_contains_char_token_of_category_other_than_11_12", "a file name holds a character token whose category is neither letter nor other");
     for (c, m) in [
         ("read_line_with_balanced_group_followed_by_more_lines", "a \\read stops after a line that holds a complete group while the file has further lines"),
